@@ -254,8 +254,8 @@ LATE = {
     'C07': "Added late: areLPsInSync() reads through the unscaled accessors (R07.11); no rational reaches the floating-point LP through mpq_get_d (R07.12); sense and offset re-applied wherever an LP is cleared or created (R07.13).",
     'C08': "Added late: a verdict UNBOUNDED / DUAL_INFEASIBLE of SPxMainSM is governed by a comparison that uses the dual feasibility tolerance (R08.12); no PostStep::execute() branches on the objective sense (R08.13); FixVariablePS consults the sign of the reduced cost (R08.14); stored m_strictLo / m_strictUp are read by execute() (R08.15).",
     'C09': "Added late: bounds and sides are scaled / unscaled only under a test against infinity (R09.9, R09.10); scaleExp grows with the side / bound arrays (R09.11); with persistent scaling off a scaled LP is unscaled before the solve (R09.12).",
-    'C10': "Added late: arrays indexed by l.startSize are re-allocated together (R10.5); a forest* member function calls the forest* twin of every helper that has one (R10.6).",
-    'C11': "Added late: co-sized arrays (R11.6), fill-ins queued once (R11.7), a factorization whose status is not OK is discarded before computeBasisInverseRational() returns (R11.8), forest twins (R11.9), the cached factorization is cleared wherever an undo function of the exact solver cuts the basis back (R11.10).",
+    'C10': "Added late: arrays indexed by l.startSize are re-allocated together (R10.5); a forest* member function calls the forest* twin of every helper that has one (R10.6); sibling cross-check with the rational LU: every CLUFactor<R> member resets each work-vector / table entry that the same member of CLUFactorRational resets (R10.7).",
+    'C11': "Added late: co-sized arrays (R11.6), fill-ins queued once (R11.7), a factorization whose status is not OK is discarded before computeBasisInverseRational() returns (R11.8), forest twins (R11.9), the cached factorization is cleared wherever an undo function of the exact solver cuts the basis back (R11.10); sibling cross-check with the floating-point LU: every CLUFactorRational member resets each work-vector / table entry that the same member of CLUFactor<R> resets, so a solve leaves its work vector all-zero for the next sparse right-hand side (R11.11).",
     'C12': "Added late: every vec.add(colidx, ..) of the LP-format reader is governed by a look-up vec.pos(colidx) (R12.9); a GREATER_EQUAL arm that uses lhs(i) as a number handles the free row (R12.10).",
     'C13': "Added late: no decision on a later character of the MPS indicator field alone (R13.15); MPSreadCols tests vec.pos(idx) before vec.add (R13.16); ratFromString() tests the denominator (R13.17); input files are opened through spxOpenInputFile(), never by constructing the throwing stream from a name (R13.18); MPS value fields are converted by the checked helper, never by atof() (R13.19); the LP-format reader counts names against rows (R13.20).",
     'C14': "Added late: saveSettingsFile() writes real parameters with a precision that round-trips a double (R14.7); writeBasisFile() forwards to the solver only if the object has a basis (R14.8).",
